@@ -23,7 +23,8 @@ package payment
 //@ modifies paid, effects
 
 //@ func (*PaymentService).verify
-//@ property C04 C05 C06
+//@ property C04 C05 C06 C15
+//@ safety on
 //@ ensures [accepted] err == nil ==> authorised(method, wallet, nonce) && authArgs == args
 //@                                   && old(p.NonceStore.nonce[wallet]) < nonce && p.NonceStore.nonce == upd(old(p.NonceStore.nonce), wallet, nonce)
 //@ ensures [refused]  err != nil ==> typeis(err, pool.VerifyFailedError) && p.NonceStore.nonce == old(p.NonceStore.nonce) && effects == old(effects)
@@ -33,7 +34,8 @@ package payment
 //@ modifies authOK, authMethod, authID, authNonce, authArgs, nonceOK, nonceID, nonceVal, p.NonceStore.nonce, effects
 
 //@ func (*PaymentService).AddNode
-//@ property C04 C06 C01
+//@ property C04 C06 C01 C15
+//@ safety on
 //@ requires !authOK && !nonceOK
 //@ ensures [authorised] {C04 C05 C06} effects != old(effects) ==> authorised("pool_addNode", wallet, nonce) && len(authArgs) == 1 && typeis(authArgs[0], string) && authArgs[0].(string) == nodeID
 //@ ensures [refused-error]    !(authOK && nonceOK) ==> typeis(err, pool.VerifyFailedError)
@@ -44,7 +46,8 @@ package payment
 //@ pure spendableOf(s store.BalanceStore, a string) int = s.acredit[store.Account(a)] + s.adeposit[store.Account(a)]
 
 //@ func (*PaymentService).Withdraw
-//@ property C01 C04 C06 C07
+//@ property C01 C04 C06 C07 C15
+//@ safety on
 //@ requires !authOK && !nonceOK && !held(p.mu)
 //@ ensures [authorised]       {C04 C05} effects != old(effects) ==> authorised("pool_withdraw", wallet, nonce) && len(authArgs) == 0
 //@ ensures [refused-error]    {C06} !(authOK && nonceOK) ==> typeis(err, pool.VerifyFailedError)
